@@ -292,6 +292,23 @@ def CHPR.commitOK (r : CHPR) : Bool :=
   (!r.heat || r.base.mapping.all fun m => m.kind == VarKind.d) &&
   (!decide (1 < r.R) || r.incStart) && (!decide (1 < r.D) || r.incOn) && (!r.incStart || r.incOn)
 
+/-- the mapping `Contract` produces for a one-variable contract: one dispatch row per step at the power node -/
+def CHPR.canonicalBaseMapping (r : CHPR) : List MapRow :=
+  r.idx.zipIdx.map fun q =>
+    { var := q.2, asset := r.name, node := some (r.nodes.getD 0 ""), kind := VarKind.d, step := q.1, factor := 1,
+      isBool := false, varName := "disp" }
+
+/-- decidable hypotheses of the fuel-dispatch theorem (`C06.fuel_rows`), evaluated by the driver on every request:
+    canonical base mapping, distinct steps, vector lengths, fuel node different from power and heat node -/
+def CHPR.fuelOK (r : CHPR) : Bool :=
+  match r.fuel with
+  | none => true
+  | some f =>
+    decide (r.base.mapping = r.canonicalBaseMapping) && decide (r.idx.length = r.T) && decide r.idx.Nodup &&
+    decide (r.fuelEff.length = r.T) && decide (r.consIfOn.length = r.T) && decide (r.startFuel.length = r.T) &&
+    decide (f ≠ r.nodes.getD 0 "") &&
+    (!r.heat || (decide (f ≠ r.nodes.getD 1 "") && decide (r.nodes.getD 0 "" ≠ r.nodes.getD 1 "") && decide (2 ≤ r.nodes.length)))
+
 /-! ## resolution of the constructor arguments -/
 
 /-- constructor: meaning of the nodes and assertions.  Returns (heat node present, fuel node) -/
